@@ -771,7 +771,8 @@ func readFaultBody(t *testing.T) {
 type WriteFaultCase struct {
 	History int    `json:"history"`
 	K       int    `json:"k"`
-	Op      string `json:"op"` // write | read | flush
+	Op      string `json:"op"`                 // write | read | flush
+	NoRetry bool   `json:"no_retry,omitempty"` // after a reported failure the caller does not repeat the call but goes on
 }
 
 func histories() [][]hist.Op {
@@ -797,12 +798,14 @@ var hookMu sync.Mutex
 
 // runHistoryWithFault runs history h failing the k-th I/O call of kind op; returns the number of calls of that kind
 // seen, and how the API call during which the fault fired ended.
-func runHistoryWithFault(h []hist.Op, op string, k int) (calls int, firedIn string, outcome string, final *obs.File) {
+func runHistoryWithFault(h []hist.Op, op string, k int, noRetry ...bool) (calls int, firedIn string, outcome string, final *obs.File) {
 	hookMu.Lock()
 	defer hookMu.Unlock()
 	file := filepath.Join(vt.GetEnv().Scratch, fmt.Sprintf("wf-%d.h5", os.Getpid()))
 	defer os.Remove(file)
 	fired := false
+	failedPath, laterBroken := "", ""
+	lastContinued = continued{}
 	writer.VerifFaultHook = func(o string, off int64, n int) error {
 		if o != op {
 			return nil
@@ -857,14 +860,20 @@ func runHistoryWithFault(h []hist.Op, op string, k int) (calls int, firedIn stri
 				}
 				// (2) the caller tries again: if the second attempt succeeds, the history goes on and must end where the
 				// fault-free run ends; if it is refused too, the file as it stands must not hold different data (afterError)
-				if st2 := ex.Apply(o); st2.Err == "" && st2.Broken == "" {
-					outcome = "retried"
-					continue
+				if len(noRetry) == 0 || !noRetry[0] {
+					if st2 := ex.Apply(o); st2.Err == "" && st2.Broken == "" {
+						outcome = "retried"
+						continue
+					}
 				}
-				_ = ex.Close()
-				return calls, firedIn, "error", obs.Read(file, obs.Options{})
+				// (3) refused again: the caller gives up on this call and goes on with the rest of its work. Whatever the library
+				// accepts from here on must be in the file at the end (the model follows the calls that returned nil)
+				outcome, failedPath = "error-continued", o.Path
+				continue
 			}
 			outcome = "nil" // the call claims success: the history goes on and the final content is compared
+		} else if outcome == "error-continued" && st.Broken != "" && laterBroken == "" {
+			laterBroken = fmt.Sprintf("op %d %s %s: %s", i, o.K, o.Path, st.Broken)
 		}
 	}
 	was := fired
@@ -879,6 +888,23 @@ func runHistoryWithFault(h []hist.Op, op string, k int) (calls int, firedIn stri
 		outcome = "clean"
 	}
 	final = obs.Read(file, obs.Options{})
+	if outcome == "error-continued" {
+		lastContinued = continued{failedPath: failedPath, broken: laterBroken}
+		leaf := failedPath[strings.LastIndex(failedPath, "/")+1:]
+		for _, p := range hist.Compare(ex.M, final, hist.Opts{}) {
+			// the refused call's own target may exist, not exist or be half-written
+			if p.Path == failedPath || strings.HasPrefix(p.Path, failedPath+"/") || (leaf != "" && strings.Contains(p.Detail, "\""+leaf+"\"")) || p.Kind == "attr-value-unsigned" {
+				continue
+			}
+			if (p.Kind == "child-missing" || p.Kind == "dataset-missing" || p.Kind == "group-missing" || p.Kind == "link-invisible") && underDenseGroup(ex.M, p.Path) {
+				continue // the reader never lists the members of a dense group (C03's open finding)
+			}
+			if p.Kind == "link-as-object" || p.Kind == "link-invisible" {
+				continue // soft / external links are stored as pseudo objects (C03's open finding)
+			}
+			lastContinued.problems = append(lastContinued.problems, p.String())
+		}
+	}
 	// what an independent decoder makes of the stored bytes, compared with the model (variable-length data, raw bytes of
 	// types without a typed read): kept as a summary string next to the observation
 	lastIndep = ""
@@ -893,6 +919,24 @@ func runHistoryWithFault(h []hist.Op, op string, k int) (calls int, firedIn stri
 	}
 	return calls, firedIn, outcome, final
 }
+
+func underDenseGroup(m *hist.Model, p string) bool {
+	for q := p; q != "" && q != "/"; q = q[:strings.LastIndex(q, "/")] {
+		if o := m.Resolve(q); o != nil && o.Dense {
+			return true
+		}
+	}
+	return false
+}
+
+// continued describes a run that went on after a call had reported an I/O failure twice.
+type continued struct {
+	failedPath string
+	broken     string   // first later call whose outcome contradicts the model (e.g. a child accepted below a parent that was refused)
+	problems   []string // differences between the final file and the model of the calls that returned nil
+}
+
+var lastContinued continued
 
 // lastIndep is the independent decoder's summary of the last run that reached its end (set under hookMu).
 var lastIndep string
@@ -914,7 +958,7 @@ func runWriteFault(c WriteFaultCase) vt.Verdict {
 	if c.History < 0 || c.History >= len(hs) {
 		return vt.Skipped("no such history")
 	}
-	_, where, outcome, final := runHistoryWithFault(hs[c.History], c.Op, c.K)
+	_, where, outcome, final := runHistoryWithFault(hs[c.History], c.Op, c.K, c.NoRetry)
 	switch {
 	case outcome == "clean" || outcome == "setup-error":
 		return vt.Skipped("fault index beyond the calls of the history")
@@ -931,6 +975,19 @@ func runWriteFault(c WriteFaultCase) vt.Verdict {
 		// where the strict decoder refuses the file for that, only the library-level comparison above applies)
 		if ci, _ := cleanIndep.Load(c.History); ci != nil && ci.(string) != mine && strings.HasPrefix(mine, "decode: problems:") {
 			return vt.Bad("history %d: %s #%d failed during %s, a second attempt returned nil, and the stored bytes decode differently from the fault-free run's: %s (fault-free: %s)", c.History, c.Op, c.K, where, clip(mine), clip(ci.(string)))
+		}
+	case outcome == "error-continued":
+		lc := lastContinued
+		if lc.broken != "" {
+			return vt.Bad("history %d: %s #%d failed during %s (refused twice); afterwards %s", c.History, c.Op, c.K, where, clip(lc.broken))
+		}
+		if len(lc.problems) > 0 {
+			return vt.Bad("history %d: %s #%d failed during %s (refused twice); the calls that returned nil afterwards are not what the file holds: %s", c.History, c.Op, c.K, where, clip(lc.problems[0]))
+		}
+		if final != nil {
+			if p := afterError(cleanObs(c.History, hs[c.History]), final, hs[c.History], where); p != "" {
+				return vt.Bad("history %d: %s #%d failed during %s (refused twice), and the file read at the end holds different data: %s", c.History, c.Op, c.K, where, clip(p))
+			}
 		}
 	case outcome == "error" && final != nil:
 		if p := afterError(cleanObs(c.History, hs[c.History]), final, hs[c.History], where); p != "" {
@@ -1085,17 +1142,20 @@ func writeFaultBody(t *testing.T) {
 				if job%e.NShards != e.Shard {
 					continue
 				}
-				c := WriteFaultCase{History: hi, K: k, Op: op}
-				n++
-				v := vt.SafeRun(runWriteFault, c)
-				switch v.Kind {
-				case vt.Known:
-					rec.KnownHit(v.ID, v.Detail, c)
-				case vt.Violation:
-					viol++
-					if viol <= 5 {
-						p := vt.ReportViolation(prop, "writefault", c, v.Detail)
-						t.Errorf("%s (replay %s)", v.Detail, p)
+				for _, noRetry := range []bool{false, true} { // the caller repeats a refused call once, or goes on without it
+					c := WriteFaultCase{History: hi, K: k, Op: op, NoRetry: noRetry}
+					vt.Current(prop, "writefault", c)
+					n++
+					v := vt.SafeRun(runWriteFault, c)
+					switch v.Kind {
+					case vt.Known:
+						rec.KnownHit(v.ID, v.Detail, c)
+					case vt.Violation:
+						viol++
+						if viol <= 5 {
+							p := vt.ReportViolation(prop, "writefault", c, v.Detail)
+							t.Errorf("%s (replay %s)", v.Detail, p)
+						}
 					}
 				}
 			}
